@@ -936,7 +936,7 @@ func (g *gen) generate() {
 	}
 	// (a') the deepest searches the node cap per script allows (made shallower until they fit)
 	for i, rt := range p.live {
-		if i%T(2, 1) != 0 {
+		if i%T(3, 1) != 0 {
 			continue
 		}
 		sc := newScript("single-deep", g.buckets())
@@ -973,7 +973,7 @@ func (g *gen) generate() {
 		g.emit(sc)
 	}
 	// … and random larger budgets
-	for i := 0; i < T(120, 600); i++ {
+	for i := 0; i < T(100, 600); i++ {
 		rt := g.pick(p.live)
 		sc := newScript("budget-random", g.buckets())
 		gs := plain(rt, 2+r.IntN(g.maxD-1))
@@ -1028,17 +1028,19 @@ func (g *gen) generate() {
 	}
 	// ponder searches: the hit message is received by the k-th poll (after the k-th completed iteration);
 	// until then depth limit, node budget and soft limit are ignored (the budget must still not be exceeded)
-	for i := 0; i < T(30, 120); i++ {
+	for i := 0; i < T(60, 240); i++ {
 		rt := g.pick(p.live)
 		sc := newScript("ponder", g.buckets())
 		gs := plain(rt, 1+r.IntN(3))
 		gs.ponder = r.IntN(min(g.depthFor(rt), 4) + 1)
-		switch r.IntN(4) {
+		switch r.IntN(5) {
 		case 0:
 			gs.nodes = r.IntN(60)
 		case 1:
 			gs.nodes = 100 + r.IntN(3000)
 		case 2:
+			gs.soft = 1 + r.IntN(20)
+		case 3:
 			gs.soft = 1 + r.IntN(500)
 		}
 		if gs.ponder == 0 && r.IntN(2) == 0 {
@@ -1052,7 +1054,7 @@ func (g *gen) generate() {
 	}
 	// (d) games on one engine: search, play the best move (or a random one), search the successor …;
 	// now and then an aborted search, a repeated root, a Clear
-	for i := 0; i < T(40, 120); i++ {
+	for i := 0; i < T(30, 120); i++ {
 		rt := g.pick(p.live)
 		sc := newScript("game", g.buckets())
 		n := 3 + r.IntN(T(6, 12))
@@ -1136,7 +1138,7 @@ func (g *gen) generate() {
 		g.emit(sc)
 	}
 	// (g) deep searches of small positions (long variations, mate scores, null-move / LMR / IIR territory)
-	for i := 0; i < T(50, 300) && len(p.cheap) > 0; i++ {
+	for i := 0; i < T(40, 300) && len(p.cheap) > 0; i++ {
 		rt := g.pick(p.cheap)
 		sc := newScript("deep-small", g.buckets())
 		gs := plain(rt, g.maxD+1+r.IntN(3))
@@ -1245,9 +1247,9 @@ func main() {
 	// the model replays about 2 500 nodes per second and process: node budgets per worker
 	limit := *budget
 	if limit == 0 {
-		limit = nw * c.Pick(40000, 500000)
+		limit = nw * c.Pick(30000, 500000)
 	}
-	perScript := c.Pick(20000, 200000)
+	perScript := c.Pick(12000, 200000)
 	// ---- phase 1: the implementation (fast), in parallel ----
 	t0 := time.Now()
 	{
@@ -1270,34 +1272,22 @@ func main() {
 	}
 	implS := time.Since(t0).Seconds()
 
-	// ---- node budget of the model replay: drop scripts (in generation order, per kind round-robin
-	// keeps every kind) once the budget is spent ----
+	// ---- node budget of the model replay (a safety net; the generators aim below it): the most
+	// expensive scripts are dropped first until the rest fits ----
 	{
-		byKind := map[string][]*script{}
-		var kinds []string
-		for _, sc := range scripts {
-			if _, ok := byKind[sc.kind]; !ok {
-				kinds = append(kinds, sc.kind)
-			}
-			byKind[sc.kind] = append(byKind[sc.kind], sc)
-		}
+		idx := make([]int, len(scripts))
 		spent := 0
-		for round := 0; ; round++ {
-			any := false
-			for _, k := range kinds {
-				if round < len(byKind[k]) {
-					any = true
-					sc := byKind[k][round]
-					if spent+sc.total > limit && round > 0 {
-						sc.skipped = true
-						continue
-					}
-					spent += sc.total
-				}
-			}
-			if !any {
+		for i, sc := range scripts {
+			idx[i] = i
+			spent += sc.total
+		}
+		sort.SliceStable(idx, func(a, b int) bool { return scripts[idx[a]].total > scripts[idx[b]].total })
+		for _, i := range idx {
+			if spent <= limit {
 				break
 			}
+			scripts[i].skipped = true
+			spent -= scripts[i].total
 		}
 	}
 
